@@ -8,6 +8,7 @@ from torch import LongTensor, Tensor
 
 from ..distributions import Delta, MultivariateNormal
 from ..models import ApproximateGP
+from ..utils.interpolation import Interpolation
 from ..variational._variational_distribution import _VariationalDistribution
 from ..variational.grid_interpolation_variational_strategy import GridInterpolationVariationalStrategy
 
@@ -51,7 +52,9 @@ class AdditiveGridInterpolationVariationalStrategy(GridInterpolationVariationalS
     def _compute_grid(self, inputs: Tensor) -> Tuple[LongTensor, Tensor]:
         num_data, num_dim = inputs.size()
         inputs = inputs.transpose(0, 1).reshape(-1, 1)
-        interp_indices, interp_values = super(AdditiveGridInterpolationVariationalStrategy, self)._compute_grid(inputs)
+        # One row per (dimension, data point). (The parent's _compute_grid would also expand the rows to the batch shape of
+        # the variational distribution - the num_dim components - which is what the reshape below produces itself.)
+        interp_indices, interp_values = Interpolation().interpolate(self.grid, inputs)
         interp_indices = interp_indices.view(num_dim, num_data, -1)
         interp_values = interp_values.view(num_dim, num_data, -1)
 
